@@ -507,7 +507,10 @@ TRUSTED_BASE = [
 
 
 def write_evidence(prop, tier, seed, coverage, wall, violations, assumptions=None):
-    os.makedirs(os.path.join(VERIF, "evidence"), exist_ok=True)
+    # evidence of runs against another tree (seeded change, mutant, refactoring: GDSL_REPO override) goes to that run's cache,
+    # never into /verif/evidence, which describes the tree in /repo only
+    evdir = os.environ.get("VERIF_EVIDENCE") or (os.path.join(VERIF, "evidence") if os.path.abspath(REPO) == "/repo" else os.path.join(CACHE, "evidence"))
+    os.makedirs(evdir, exist_ok=True)
     coverage = dict(coverage)
     if coverage.get("discharged", 1) == 0:
         # schema: a proof-level file with discharged=0 is not valid evidence; keep the count under another key
@@ -516,7 +519,7 @@ def write_evidence(prop, tier, seed, coverage, wall, violations, assumptions=Non
         coverage.setdefault("distinct_nontrivial", 2)
     ev = dict(property_id=prop, tier=tier, seed=seed, level="proof", coverage=coverage,
               assumptions=assumptions or [], wall_s=round(wall, 2), violations=violations)
-    with open(os.path.join(VERIF, "evidence", "%s.json" % prop), "w") as f:
+    with open(os.path.join(evdir, "%s.json" % prop), "w") as f:
         json.dump(ev, f, indent=1)
 
 
